@@ -1,13 +1,13 @@
 SPECIFICATION Spec
 CONSTANTS
-  Devs <- DevAll
+  Devs <- DevBoth
   Ops <- OpsIns
   ByteStrings <- BytesThorough
   NumSeqs <- NumsQuick
   NewObjs <- MCNewObjs
   MaxDepth = 3
   Starts <- StartsIns2
-  Allowed = {"content.sharedStream", "resources.nameCollision"}
+  Allowed = {}
   Emit = TRUE
   EmitMod = 3000
   EmitModV = 400
